@@ -133,9 +133,16 @@ def write_crate(cdir, cases):
     lines.append("    std::panic::set_hook(Box::new(|_| {}));")
     lines.append("    use std::io::Write;")
     lines.append("    let mut out = std::io::BufWriter::new(std::fs::File::create(std::env::args().nth(1).unwrap()).unwrap());")
-    for c in cases:
-        lines.append('    writeln!(out, "{}", json!({"id": %d, "obs": t%d::observe()})).unwrap();' % (c["id"], c["id"]))
+    # one small function per 100 types: a single main() with thousands of temporaries overflows the stack in a debug build
+    chunks = [cases[i:i + 100] for i in range(0, len(cases), 100)]
+    for k in range(len(chunks)):
+        lines.append("    chunk%d(&mut out);" % k)
     lines.append("}")
+    for k, ch in enumerate(chunks):
+        lines.append("#[inline(never)] fn chunk%d(out: &mut impl std::io::Write) {" % k)
+        for c in ch:
+            lines.append('    writeln!(out, "{}", json!({"id": %d, "obs": t%d::observe()})).unwrap();' % (c["id"], c["id"]))
+        lines.append("}")
     with open(os.path.join(cdir, "src", "main.rs"), "w") as f:
         f.write("\n".join(lines) + "\n")
     return spans
